@@ -11,7 +11,7 @@ from hypothesis import strategies as st
 from vlib import gen
 from vlib.checkers import FdChecker, container_fds
 from vlib.common import Violation, config_kwargs, content_of, digest, new_dir, rm_dir
-from vlib.runner import explore
+from vlib.runner import ddmin_ops, explore
 
 from ._hist import run_histories
 from ._hist import replay_history
@@ -31,7 +31,10 @@ RULE = (
     'add_streamed_objects_to_pack plain/compressed, pack_all_loose NO/YES/AUTO, repack NO->YES / YES->NO / KEEP, validate, '
     'chunked read of loose / packed / compressed, import_objects with a budget below the object size) on generated streams '
     'of 4 MiB vs 12 MiB (quick) / 32 MiB (thorough), compressible and incompressible: peak(big) - peak(4 MiB) < (big - 4 MiB)/4 '
-    'and peak(big) < 3/4 of the object size. Non-trivial: (a) history with a pack-writing op; (b) request spanning >= 2 files; (c) size >= 8 MiB.'
+    'and peak(big) < 3/4 of the object size. (d) the census of (a) over the multi-handle histories of C08 (2-4 handles, adds '
+    'through any, pack/clean through one, queries through stale handles, which take the fall-back paths of the readers); the '
+    'cyclic garbage collector is off during (a) and (d), so a descriptor closed only by a collection counts as open. '
+    'Non-trivial: (a) history with a pack-writing op; (b) request spanning >= 2 files; (c) size >= 8 MiB; (d) a query through a stale handle.'
 )
 ASSUMPTIONS = [
     'native allocations of zlib / SQLite are invisible to tracemalloc; RSS is not used as an oracle',
@@ -366,6 +369,45 @@ def part_c(ctx, big_mib):
         ctx.stats.record(True, ['c', path_name, kind, big_mib], {'part': 'c', 'path': path_name, 'kind': kind, f'peak_{SMALL_MIB}MiB': small, f'peak_{big_mib}MiB': big})
 
 
+def run_case_d(case):
+    """Part (d): the descriptor census over the multi-handle histories of C08 (stale handles take the reader's fall-back paths:
+    second index look-up, re-opened pack files). Answers are C08's business; only descriptors are judged here."""
+    import gc  # pylint: disable=import-outside-toplevel
+
+    from props import c08  # pylint: disable=import-outside-toplevel
+    from vlib.checkers import container_fds  # pylint: disable=import-outside-toplevel
+
+    def observer(phase, root, nhandles, log):
+        fds = container_fds(root)
+        if phase == 'closed':
+            if fds:
+                raise Violation(PROP, 'fd:after-close:multi-handle', f'all {nhandles} handles closed, still open: {sorted(t for _, t in fds)}; history: {log}')
+            return
+        bad = [t for _, t in fds if not t.split('/')[-1].startswith('packs.idx')]
+        if phase == 'triplet':
+            # a bulk read is handing out a stream: at most one pack or loose file is open at that moment
+            if len(bad) > 1:
+                raise Violation(PROP, 'one-open-file:multi-handle', f'{len(bad)} pack / loose files open at a yielded triplet: {sorted(bad)}; history: {log}')
+            return
+        if bad:
+            raise Violation(PROP, 'fd:leak:multi-handle', f'open descriptors inside the container after an operation returned: {sorted(bad)}; history: {log}')
+        if len(fds) > 6 * (nhandles + 1):
+            raise Violation(PROP, 'fd:accumulate:multi-handle', f'{len(fds)} index descriptors open for {nhandles} handles; history: {log}')
+
+    gc.collect()
+    gc.disable()
+    try:
+        try:
+            nontrivial, fp, sample, labels = c08.run_case(case, observer=observer)
+        except Violation as exc:
+            if exc.prop == PROP:
+                raise
+            return False, ['d', 'other-property'], None, ['multi-handle-history', 'stopped-by-another-property']
+    finally:
+        gc.enable()
+    return nontrivial, ['d'] + fp, dict(sample, part='d'), ['multi-handle-history'] + [lab for lab in labels if lab.startswith('stale-query')]
+
+
 def run_shard(ctx):
     quick = ctx.tier == 'quick'
     ctx.set_budget(45 if quick else 1100)
@@ -374,6 +416,13 @@ def run_shard(ctx):
         return
     ctx.set_budget(25 if quick else 900)
     explore(ctx, strategy_b(), run_case_b, 60 if quick else 8000, salt=1)
+    if ctx.stats.violations:
+        return
+    from props import c08  # pylint: disable=import-outside-toplevel
+
+    ctx.set_budget(20 if quick else 600)
+    explore(ctx, c08.strategy(ctx.tier), run_case_d, 40 if quick else 4000, salt=2,
+            shrink=lambda case, exc: ddmin_ops(case, exc, run_case_d))
     if ctx.stats.violations:
         return
     part_c(ctx, 12 if quick else 32)
@@ -386,6 +435,9 @@ def replay(case):
         problem = memory_verdict(small, big, case['big_mib'])
         if problem:
             raise Violation(PROP, f'memory:{case["path"]}', problem)
+        return
+    if 'nhandles' in case:
+        run_case_d(case)
         return
     if 'ops' in case:
         replay_history(case, PROP, checkers_a)
